@@ -2,6 +2,7 @@
 """Regenerates MANIFEST.json from the table below (kept in one place so it stays valid)."""
 import json
 
+TECH = 'symbolic execution of the real Python code (CrossHair as a library, own explorer + plugins) with z3/cvc5 deciding every path; exhaustive path enumeration within stated bounds'
 CLAIMED = {
  'C07': dict(
   text='Bounded symbolic execution of the real dispatcher loop (_IncomingPacketHandler.run, add/remove_*_callback) and Caller: '
@@ -11,6 +12,49 @@ CLAIMED = {
        'Trusted: CrossHair 0.0.110 + our bit-operation plugin (validated against CPython on every run), z3 5.1.',
   tech='symbolic execution of the real Python code (CrossHair as a library) + z3, exhaustive path enumeration within bounds',
   ref='DESIGN.md §3 C07'),
+
+ 'C08': dict(
+  text='One harness per packet-emitting method (commander, high-level commander, localization, extpos, platform service, LPS anchor): '
+       'all float arguments are arbitrary finite IEEE doubles, integer arguments range beyond their field, protocol version 0..20 and '
+       'booleans symbolic; the emitted payload must equal, byte for byte, the reference encoding of the arguments under a firmware layout '
+       'table, on the documented port/channel, <= 30 bytes, and unrepresentable arguments must raise with nothing sent. Header '
+       'encode/decode over all 16x4 pairs and all 256 received header bytes.',
+  note='Firmware layouts are a table in vf/props/c08.py written from the CRTP documentation (firmware sources are not available offline). '
+       'NaN/inf arguments and the quaternion inside send_full_state_setpoint (C13) are outside. x-mode: one of roll/pitch symbolic at a time. '
+       'Trusted: CrossHair, struct float32 model (validated against CPython each run), z3.',
+  tech=TECH, ref='DESIGN.md §3 C08'),
+ 'C06': dict(
+  text='Real Memory.read/write/_new_packet_cb/_handle_chan_* and _ReadRequest/_WriteRequest through the real Crazyflie.send_packet against '
+       'a byte-array device model: symbolic addresses (32 bit), lengths across every 20/25-byte chunk boundary, symbolic contents, duplicated, '
+       'late and error replies, link drop after the k-th reply, queued and superseded writes, MemoryTester; asserts exact data, untouched '
+       'bytes elsewhere, exactly one notification per request, write order, no lock or pending record left, follow-up requests served.',
+  note='Bounds per harness in evidence (lengths <= 63/77 end-to-end quick, <= 100 thorough; step harness covers arbitrary 32-bit progress state). '
+       'Context switches only at blocking calls; two OS threads inside write() are outside. Aliased writes (same id+address outstanding twice) '
+       'have unspecified data, only liveness is required.',
+  tech=TECH, ref='DESIGN.md §3 C06'),
+ 'C18': dict(
+  text='CPXPacket wire codec over all 65,536 routing-header pairs and enum combinations; SocketTransport write/read through a fake socket '
+       'whose recv returns a solver-chosen number of bytes, for every fragmentation of 2-3 packet streams; CPXRouter stepped per packet '
+       '(per-function FIFO, no cross delivery); CRTP tunnelling through TcpDriver/_CPXReceiveThread and the serial driver framing in both directions.',
+  note='Payload lengths <= 3..6 and 2-3 packets per stream (bounds per harness in evidence); recv returning b\'\' / partial send / corrupted UART '
+       'frames are outside. Packets arriving before a function queue exists are dropped by design (assumption).',
+  tech=TECH, ref='DESIGN.md §3 C18'),
+ 'C19': dict(
+  text='Real Swarm (sequential, parallel, parallel_safe, open_links/close_links, context manager) with swarm.Thread replaced by deferred tasks '
+       'whose start/join order is chosen by the solver, symbolic failing subsets (action raises / link open fails), symbolic argument lists; '
+       'also with the real SyncCrazyflie on a fake Crazyflie. Exactly-once, argument, ordering, join-before-return, raise-iff-failed with chained cause, '
+       'close-all-on-failure and open-twice claims asserted on every schedule.',
+  note='Swarm size <= 3 (quick) / 4 (thorough); switches only at Thread.start/join and between whole task bodies; args_dict lacking a URI, '
+       'BaseException from actions and duplicate URIs are outside.',
+  tech=TECH, ref='DESIGN.md §3 C19'),
+ 'C20': dict(
+  text='RadioDriver.connect/parse_uri per URI shape with symbolic content (dongle id digits, channel digits, 1..10 hex address characters of either case, '
+       'rate literals, rate-limit digits, serial-number ids) checked against the settings handed to the radio; scan_interface URIs parse back; '
+       'the scheme guard of every driver is extracted from the current source, translated to a z3 regular expression and pairwise intersection '
+       'emptiness is decided for unbounded strings; get_link_driver/open_link with fake drivers whose connect outcome is symbolic.',
+  note='URI shape is enumerated (forked), content symbolic; string models for format/unhexlify/int(str,16) in vf/env/c20_env.py validated against CPython '
+       'on every run; cflinkcpp and real USB enumeration outside; malformed-character harnesses enumerate 13 bad characters (labelled non-symbolic).',
+  tech=TECH + '; z3 regular-expression emptiness queries generated from the source', ref='DESIGN.md §3 C20'),
 }
 NOT_YET = {}
 NOT_APPLICABLE = {
